@@ -147,6 +147,10 @@ type Schema struct {
 	// BadType, when non-empty, is malformed source text in the type position
 	// (malformed-schema cases only).
 	BadType string `json:"bad_type,omitempty"`
+	// BadSub, when non-empty, is malformed source text standing where the
+	// user-data type name of a tagged-value schema goes (malformed-schema
+	// cases only): (s:deftype "T" s:tagged-value "strng"), (s:make-validator tv "strng").
+	BadSub string `json:"bad_sub,omitempty"`
 }
 
 // Con is one element of a constraint list.
